@@ -1,10 +1,13 @@
 package c17
 
-// Go port of lean/Model/Lazy.lean + the exploration of lean/Drv/C17.lean.  It exists so that the
-// harness can (a) print the model's admissible runs for a script — that line is diffed against the
-// Lean driver on every run, which ties this port to the model the theorems are about — and
-// (b) compare the real loop's measured productions with those runs.  Keep it line-by-line parallel
-// to the Lean definitions.
+// Go port of lean/Model/Lazy.lean + the exploration of lean/Drv/C17.lean.  It is used (a) by the
+// generator (which scenarios are stable under jitter, where to put probes, how many events to compare),
+// (b) by the timing monitor (admissible production times) and (c) for the membership test in near-tie
+// scenarios.  Whatever it computes that reaches the observation line (`runs=`, the outcome set of a
+// near-tie scenario) is diffed against the Lean driver on that very line, which ties this port to the
+// model the theorems are about.  In a well-separated scenario the `outs=` part of the line is NOT
+// computed here: it is the order of events the real loop went through (real.go).  Keep the
+// definitions parallel to the Lean ones.
 
 import (
 	"fmt"
